@@ -429,6 +429,98 @@ Definition check_page (input output : J) : verdict :=
   | _ => malformed
   end.
 
+(* long pagination runs: in = [api, cfgmode, ps, max | null, npages]; page i < npages is [i] with
+   has_more = (i < npages - 1), beyond an empty final page.  The model is RUN (npages + 2 fuel)
+   and summarised; the reference is arithmetic on (npages, limit). *)
+Definition check_plong (input output : J) : verdict :=
+  match input with
+  | JL [JI api; JI mode; JI ps; jmax; JI npages] =>
+      match (match jmax with JN => Some None | JI m => Some (Some m) | _ => None end) with
+      | Some mx =>
+          if negb ((0 <=? api) && (api <=? 2) && (0 <=? mode) && (mode <=? 3) && (0 <=? ps)
+                   && (0 <=? npages) && (npages <=? 20000)
+                   && match mx with Some m => 0 <=? m | None => true end) then malformed else
+          match output with
+          | JL [JI fetches; JB in_order; JI last_page; JI ps_min; JI ps_max; JI cls; JI nitems;
+                JI first; JI lst; JI sum] =>
+              let mxn := match mx with Some m => Some (Z.to_N m) | None => None end in
+              let d := pagination_cfg_default in
+              let c := if mode =? 0 then {| page_size := Z.to_N ps; max_pages := mxn |}
+                       else if mode =? 1 then d
+                       else if mode =? 2 then {| page_size := page_size d; max_pages := mxn |}
+                       else {| page_size := Z.to_N ps; max_pages := max_pages d |} in
+              let np := Z.to_N npages in
+              let fetch := fun (page _ : N) =>
+                if (page <? np)%N then ROk ([Z.of_N page], (page + 1 <? np)%N)
+                else ROk (M := Z) ([], false) in
+              let fuel := (Z.to_nat npages + 2)%nat in
+              let '(mo, mcalls) :=
+                if api =? 0 then paginate_cfg fuel c fetch
+                else if api =? 1 then run_paginated_operation fuel (page_size c) (max_pages c) fetch
+                else run_cloud_io_paginated fuel (page_size c) (max_pages c) fetch in
+              let pages := map (fun x => Z.of_N (fst x)) mcalls in
+              let m_order := zlist_eqb pages (zrange (Z.of_nat (List.length pages))) in
+              let m_ps := forallb (fun x => (snd x =? page_size c)%N) mcalls in
+              let m_sum :=
+                match mo with
+                | Done (ROk l) => [0; Z.of_nat (List.length l); hd (-1) l; last l (-1);
+                                   fold_left Z.add l 0]
+                | Done (RErr k _) => [kind_code k; 0; -1; -1; 0]
+                | _ => [-9]
+                end in
+              let obs_sum := [cls; nitems; first; lst; sum] in
+              let nf := Z.of_nat (List.length mcalls) in
+              let agree :=
+                (fetches =? nf) && Bool.eqb in_order m_order && m_ps
+                && (last_page =? last pages (-1))
+                && (if 0 <? nf then (ps_min =? Z.of_N (page_size c)) && (ps_max =? ps_min)
+                    else (ps_min =? -1) && (ps_max =? -1))
+                && zlist_eqb obs_sum m_sum in
+              (* reference *)
+              let eff_ps := if (mode =? 0) || (mode =? 3) then ps else 100 in
+              let eff_max := if (mode =? 0) || (mode =? 2) then mx else None in
+              let n := match eff_max with Some m => Z.min npages m | None => npages end in
+              let rf := if npages =? 0
+                        then (match eff_max with Some 0 => 0 | _ => 1 end) else n in
+              let prop :=
+                (fetches =? rf) && in_order && (last_page =? rf - 1)
+                && (if 0 <? rf then (ps_min =? eff_ps) && (ps_max =? eff_ps)
+                    else (ps_min =? -1) && (ps_max =? -1))
+                && zlist_eqb obs_sum
+                     [0; n; (if 0 <? n then 0 else -1); (if 0 <? n then n - 1 else -1);
+                      n * (n - 1) / 2] in
+              ok_verdict agree prop
+          | _ => bad_out output
+          end
+      | None => malformed
+      end
+  | _ => malformed
+  end.
+
+(* the Default impls: in = [0] *)
+Definition check_defaults (input output : J) : verdict :=
+  match input with
+  | JL [JI 0] =>
+      match output with
+      | JL [JL [JI ma; JI ini; JI mxd; JB ge2; JB eq2]; JL [JI ps; jmp]; JL [JI cs; JB par]] =>
+          let r := retry_cfg_default in
+          let p := pagination_cfg_default in
+          let b := batch_cfg_default in
+          ok_verdict
+            ((ma =? Z.of_N (max_attempts r)) && (ini =? Z.of_N (initial_delay_ms r))
+             && (mxd =? Z.of_N (max_delay_ms r)) && Bool.eqb ge2 (mult_ge2 r)
+             && (ps =? Z.of_N (page_size p))
+             && match jmp, max_pages p with
+                | JN, None => true | JI m, Some m' => m =? Z.of_N m' | _, _ => false end
+             && (cs =? Z.of_nat (chunk_size b)) && Bool.eqb par (parallel b))
+            ((ma =? 3) && (ini =? 100) && (mxd =? 5000) && ge2 && eq2
+             && (ps =? 100) && match jmp with JN => true | _ => false end
+             && (cs =? 100) && negb par)
+      | _ => bad_out output
+      end
+  | _ => malformed
+  end.
+
 Definition check_timeout (input output : J) : verdict :=
   match input with
   | JL [JI mode; JI sym] =>
@@ -507,6 +599,8 @@ Definition check_C18 (kind : string) (input output : J) : verdict :=
   else if String.eqb kind "bseq" then check_bseq input output
   else if String.eqb kind "batch" then check_batch input output
   else if String.eqb kind "page" then check_page input output
+  else if String.eqb kind "plong" then check_plong input output
+  else if String.eqb kind "defaults" then check_defaults input output
   else if String.eqb kind "timeout" then check_timeout input output
   else if String.eqb kind "timing" then check_timing input output
   else if String.eqb kind "parallel" then check_parallel input output
